@@ -114,7 +114,7 @@ theorem C09_layerB_never_served {b b' : BState} {i : Nat} {o o' : Oracle} (h : s
       exact ⟨rfl, rfl, rfl, rfl, e, he, ha, rfl, ((expB_alive_iff e _).mp ha).1, ((expB_alive_iff e _).mp ha).2⟩
     · exfalso
       rcases mgetNext_spec { b with g := { b.g with stats := { b.g.stats with misses := b.g.stats.misses + 1 } } } i ks
-        (acc ++ [none]) iter with ⟨out, e⟩ | ⟨k2, rest, _, _, e⟩
+        (acc ++ [none]) iter with ⟨out, e⟩ | ⟨k2, rest, _, e⟩
       · rw [e] at hpc'
         simp only [finishCall, List.getElem?_set_self hlt] at hpc'
         cases hpc'
